@@ -3,7 +3,9 @@ package main
 import (
 	"context"
 	"fmt"
+	"hash/fnv"
 	"math"
+	"runtime"
 	"sort"
 	"strconv"
 	"strings"
@@ -396,8 +398,15 @@ func parseMergeReq(tok []string) (*mergeReq, bool) {
 func storeName(i int) string { return fmt.Sprintf("s%d", i) }
 
 // runProxy executes the request on a real ProxyStore over fake clients.
-func runProxy(rq *mergeReq) (status string, resps []*storepb.SeriesResponse) {
+func runProxy(rq *mergeReq, sched uint64) (status string, resps []*storepb.SeriesResponse) {
 	hasHang := false
+	// schedule variation: a quarter of the requests run with per-frame receive delays derived from the
+	// op line, half of those on a single P
+	if sched%4 == 0 {
+		if sched%8 == 0 {
+			defer runtime.GOMAXPROCS(runtime.GOMAXPROCS(1))
+		}
+	}
 	var clients []store.Client
 	for i, st := range rq.stores {
 		fc := &fakeClient{name: storeName(i), mint: math.MinInt64, maxt: math.MaxInt64, shardable: st.sharding, withoutReplica: st.without,
@@ -407,6 +416,9 @@ func runProxy(rq *mergeReq) (status string, resps []*storepb.SeriesResponse) {
 		}
 		if st.hangAt >= 0 {
 			hasHang = true
+		}
+		if sched%4 == 0 {
+			fc.jitter = sched*31 + uint64(i) + 1
 		}
 		for _, f := range st.frames {
 			fc.frames = append(fc.frames, f.pb())
@@ -765,11 +777,17 @@ func execC03(c *hlib.Ctx, tok []string) string {
 		if !ok {
 			return "bad-op"
 		}
-		st, resps := runProxy(rq)
+		hsh := fnv.New64a()
+		hsh.Write([]byte(strings.Join(tok, " ")))
+		sched := hsh.Sum64()
+		if sched%4 == 0 {
+			c.Count("schedule:jittered-receivers")
+		}
+		st, resps := runProxy(rq, sched)
 		// a frame timeout that fires on a store that is not scripted to hang is scheduling noise: retry
 		for try := 0; try < 3 && spuriousTimeout(rq, resps); try++ {
 			c.Count("retry:spurious-timeout")
-			st, resps = runProxy(rq)
+			st, resps = runProxy(rq, sched)
 		}
 		if st == "ok" && rq.limit == 0 && rq.dedup {
 			oracleMerge(c, rq, resps)
